@@ -151,6 +151,9 @@ func NewWorld(c *Case) (w *World, err error) {
 	return w, nil
 }
 
+// Plugged reports whether the reader is parked by Plug.
+func (w *World) Plugged() bool { return w.plugged }
+
 func (w *World) Destroy() {
 	for _, fd := range w.held {
 		unix.Close(fd)
@@ -188,6 +191,9 @@ func (w *World) Destroy() {
 	}
 	os.RemoveAll(w.Base)
 }
+
+// Find records a finding (exported for the lifecycle engine).
+func (w *World) Find(class, format string, a ...interface{}) { w.find(class, format, a...) }
 
 func (w *World) find(class, format string, a ...interface{}) {
 	w.Findings = append(w.Findings, Finding{class, w.step, fmt.Sprintf(format, a...)})
@@ -299,6 +305,7 @@ func IsFsOp(k string) bool {
 
 // FsOp runs a filesystem step and feeds what the shadow saw to the model.
 func (w *World) FsOp(s Step) error {
+	s.P, s.Q = w.subst(s.P), w.subst(s.Q)
 	err := w.fsop(s)
 	w.StepErrs = append(w.StepErrs, errstr(err))
 	w.opsInSeg++
@@ -593,6 +600,9 @@ func (w *World) compare(seg Segment) {
 		}
 	}
 }
+
+// Subst replaces the AbsRoot placeholder.
+func (w *World) Subst(p P) P { return w.subst(p) }
 
 func (w *World) subst(p P) P { return P(strings.ReplaceAll(string(p), AbsRoot, w.Root)) }
 
